@@ -101,6 +101,10 @@ def instr_xml(i, var):
         return '<xsl:copy-of select="(//*)[%d]"/>' % i["n"]
     if k == "K":
         return '<xsl:call-template name="t%d"/>' % i["m"]
+    if k == "V":
+        return ('<xsl:variable name="f%d">' % i["v"]) + "".join(instr_xml(b, var) for b in i["body"]) + "</xsl:variable>"
+    if k == "CV":
+        return '<xsl:copy-of select="$f%d"/>' % i["v"]
     if k == "CA":
         sel = "(//*)[%d]/@*[name()='%s']" % (i["n"], i["q"])
         if i.get("copy"):
@@ -201,6 +205,13 @@ def instr_tokens(i):
         return ["CA", str(i["n"]), i["q"]]
     if k == "K":
         return ["K", str(i["m"])]
+    if k == "CV":
+        return ["CV", str(i["v"])]
+    if k == "V":
+        t = ["V", str(i["v"]), str(len(i["body"]))]
+        for b in i["body"]:
+            t += instr_tokens(b)
+        return t
     if k == "Y":
         u = use_tokens(i)
         t = ["Y", str(i["n"]), str(len(i["body"]) + (1 if u else 0))] + u
@@ -310,9 +321,20 @@ def valid(c):
                 return False
 
     allow_calls = [True]
+    bound = [frozenset()]       # variables in scope (following siblings and their descendants)
+
+    def has_kind(body, kinds):
+        return any(b["k"] in kinds or has_kind(b.get("body", []), kinds) for b in body)
 
     def ok_list(body, sc, in_elem):
-        return all(ok(i, sc, in_elem) for i in body)
+        saved = bound[0]
+        r_ = True
+        for i in body:
+            if not ok(i, sc, in_elem):
+                r_ = False
+                break
+        bound[0] = saved
+        return r_
 
     def ok(i, sc, in_elem):
         k = i["k"]
@@ -322,6 +344,18 @@ def valid(c):
             return True
         if k == "K":
             return in_elem and allow_calls[0] and 1 <= i["m"] <= len(mods)
+        if k == "V":
+            # fragment body: elements only at its top level (no text: the model's fragments hold elements), own scope
+            if not allow_calls[0] or i["v"] in bound[0]:
+                return False
+            if any(b["k"] not in ("L", "E") for b in i["body"]) or has_kind(i["body"], ("T", "V", "CV", "K")):
+                return False
+            if not ok_list(i["body"], sc, False):
+                return False
+            bound[0] = bound[0] | {i["v"]}
+            return True
+        if k == "CV":
+            return allow_calls[0] and i["v"] in bound[0]
         if i.get("cn") or i.get("cs") or i.get("use"):
             if not allow_calls[0]:
                 return False          # module templates: no variables of the main template, no attribute sets
@@ -475,6 +509,20 @@ def expected(c):
             e["kids"].append(copy_src(k, s2, iid))
         return e
 
+    frags = {}
+
+    def retag(n, iid):
+        if n == "T":
+            return
+        n["id"] = iid
+        n["kind"] = "C"          # a copied node: no exclusion / alias clauses of its own
+        n["attsrc"] = dict((k_, iid) for k_ in n["atts"])
+        n.pop("excluded", None)
+        n.pop("aliased", None)
+        n.pop("hasAlias", None)
+        for c_ in n["kids"]:
+            retag(c_, iid)
+
     def apply_sets(i, e):
         # XSLT 7.1.4: the attributes of the used sets are added first (later additions replace them); their names
         # are expanded in the context of the xsl:attribute inside the (top-level) xsl:attribute-set
@@ -499,6 +547,27 @@ def expected(c):
     def run(body, sc, excl, parent):
         for i in body:
             k = i["k"]
+            if k == "V":
+                # XSLT 11.2: the variable holds a result tree fragment - a tree of its own, whose nodes have the
+                # expanded names the instructions ask for, whatever the result context is where it is built
+                counter[0] += 1
+                holder = {"name": ("", "#frag"), "atts": {}, "kids": [], "attsrc": {}, "id": -1, "kind": "V"}
+                run(i["body"], sc, excl, holder)
+                frags[i["v"]] = holder["kids"]
+                counter[0] += 1          # the model's end-of-fragment tag
+                continue
+            if k == "CV":
+                iid = counter[0]
+                counter[0] += 1
+                if parent is None:
+                    continue
+                for n in copy.deepcopy(frags.get(i["v"], [])):
+                    retag(n, iid)
+                    if n == "T" and parent["kids"] and parent["kids"][-1] == "T":
+                        continue
+                    parent["kids"].append(n)
+                    parent["closed"] = True
+                continue
             if k == "K":
                 md = mods[i["m"] - 1]
                 msc = dict(md["rootdecls"])
@@ -713,6 +782,8 @@ def gen_case(r, size=None):
     budget = [size if size is not None else r.range(2, 9)]
     nsets = [0]
     nmods = [0]
+    nvars = [0]
+    in_frag = [False]
 
     def pick_use():
         if nsets[0] and r.chance(1, 3):
@@ -727,7 +798,8 @@ def gen_case(r, size=None):
             return r.choice(avail)
         return ""
 
-    def body(depth, sc, in_elem):
+    def body(depth, sc, in_elem, vars_in_scope=()):
+        vars_in_scope = list(vars_in_scope)
         out = []
         n = r.weighted([(0, 1), (1, 4), (2, 4), (3, 2)]) if depth else 1
         had_child = False
@@ -744,10 +816,33 @@ def gen_case(r, size=None):
                 kinds = [(k, w) for k, w in kinds if k in ("A", "T", "C", "CA")] or [("T", 1)]
             if in_elem and nmods[0] and depth >= 1:
                 kinds.append(("K", 4))
+            if in_elem and depth >= 1 and not in_frag[0] and r.chance(1, 2):
+                kinds.append(("V", 6))
+            if in_elem and depth >= 1 and not in_frag[0] and vars_in_scope:
+                kinds.append(("CV", 8))
             if depth == 0:
                 kinds = [("L", 3), ("E", 2)]     # exactly one document element
             k = r.weighted(kinds)
-            if k == "K":
+            if k == "V":
+                # a result tree fragment built HERE, i.e. where the enclosing result elements bind prefixes (and maybe
+                # the default namespace); copied later into contexts that bind them differently
+                nvars[0] += 1
+                vid = nvars[0]
+                in_frag[0] = True
+                fb = [b for b in body(max(depth, 2), sc, False) if b["k"] in ("L", "E")][:2]
+                in_frag[0] = False
+                if fb:
+                    out.append({"k": "V", "v": vid, "body": fb})
+                    vars_in_scope = vars_in_scope + [vid]
+                    if r.chance(2, 3):
+                        # copy it straight into a context that (re-)binds a prefix or the default namespace
+                        wp = r.choice(P + [""])
+                        out.append({"k": "E", "name": (wp + ":" if wp else "") + r.choice(LOC), "ns": r.choice(URI), "use": [],
+                                    "body": [{"k": "CV", "v": vid}]})
+                        had_child = True
+            elif k == "CV":
+                out.append({"k": "CV", "v": r.choice(vars_in_scope)}); had_child = True
+            elif k == "K":
                 out.append({"k": "K", "m": r.range(1, nmods[0])}); had_child = True
             elif k == "CA":
                 n, q = r.choice(src_attrs)
@@ -760,7 +855,7 @@ def gen_case(r, size=None):
             elif k == "C":
                 out.append({"k": "C", "n": r.range(1, nsrc)}); had_child = True
             elif k == "Y":
-                out.append({"k": "Y", "n": r.range(1, nsrc), "use": pick_use(), "body": body(depth + 1, sc, True)}); had_child = True
+                out.append({"k": "Y", "n": r.range(1, nsrc), "use": pick_use(), "body": body(depth + 1, sc, True, vars_in_scope)}); had_child = True
             elif k == "A":
                 ns = None
                 p = qname(sc)
@@ -790,7 +885,7 @@ def gen_case(r, size=None):
                     i["cn"] = True
                 if ns is not None and r.chance(1, 6):
                     i["cs"] = True
-                i["body"] = body(depth + 1, sc, True)
+                i["body"] = body(depth + 1, sc, True, vars_in_scope)
                 if ns not in (None, "") and p == "" and depth < 3 and r.chance(1, 4):
                     # a default namespace that only exists at run time (declared by this xsl:element) and an
                     # unprefixed xsl:element namespace="" below it: xmlns="" must be emitted
@@ -835,7 +930,7 @@ def gen_case(r, size=None):
                     excl = sorted(set(excl) | set(split(q)[0] for q, _ in atts))
                 i = {"k": "L", "name": (p + ":" if p else "") + r.choice(LOC), "decls": decls, "atts": atts, "excl": excl,
                      "use": pick_use()}
-                i["body"] = body(depth + 1, s2, True)
+                i["body"] = body(depth + 1, s2, True, vars_in_scope)
                 out.append(i); had_child = True
         return out
     sets = []
@@ -887,8 +982,10 @@ def gen_case(r, size=None):
         save = (nsets[0], budget[0])
         nsets[0] = 0
         for md in mods:
+            in_frag[0] = True        # no variables / fragment copies inside module templates
             budget[0] = r.range(1, 4)
             md["body"] = strip_template_local(body(2, md.pop("_sc"), True))
+        in_frag[0] = False
         nsets[0], budget[0] = save
     nmods[0] = len(mods)
     nsets[0] = len(sets)
@@ -909,6 +1006,10 @@ def instr_list(c):
                 go(c["mods"][i["m"] - 1]["body"])
                 continue
             out.append(i)
+            if i["k"] == "V":
+                go(i["body"])
+                out.append({"k": "Vend"})
+                continue
             for u in i.get("use", []):
                 out.extend(c.get("sets", [])[u])
             go(i.get("body", []))
